@@ -109,6 +109,10 @@ func YieldAt(scope, point string, n uint64) {
 		}
 		nodesMu.Lock()
 		nd := nodes[scope]
+		if nd == nil {
+			// (a yield point that names the instance by its configured name instead of its file-name form)
+			nd = nodes[sanitiseScope(scope)]
+		}
 		nodesMu.Unlock()
 		if nd == nil {
 			return
@@ -137,6 +141,16 @@ func YieldAt(scope, point string, n uint64) {
 			runtime.Goexit()
 		}
 	}()
+}
+
+func sanitiseScope(s string) string {
+	b := []byte(s)
+	for i, c := range b {
+		if !(c >= 'a' && c <= 'z' || c >= 'A' && c <= 'Z' || c >= '0' && c <= '9' || c == '-') {
+			b[i] = '-'
+		}
+	}
+	return string(b)
 }
 
 // NewNode creates a managed instance (not started).
